@@ -296,6 +296,90 @@ fn runn<A: DevElem>(c: &CaseN, lx: &mut Local) {
     let _ = IxDyn(&[]);
 }
 
+#[derive(Debug, Clone)]
+struct AliasCase {
+    digits: Vec<u8>,
+    kind: u8,
+    ty: u8,
+}
+
+/// Both operands are views into ONE buffer (same first element and same shape, different strides;
+/// a square matrix and its own transpose; overlapping windows).
+fn run_alias<A: DevElem>(c: &AliasCase, lx: &mut Local) {
+    let buf: Vec<A> = c.digits.iter().map(|&d| A::mk(d)).collect();
+    let arr = Array1::from(buf.clone());
+    let maxv = A::mk(3);
+    lx.single(|lx| {
+        let m = buf.len();
+        let h;
+        match c.kind {
+            0 => {
+                // a = buf[..n], b = buf[..2n-1;2]: same start, same length, stride 1 vs 2
+                let n = (m + 1) / 2;
+                let a = arr.slice(ndarray::s![..n]);
+                let b = arr.slice(ndarray::s![..2 * n - 1;2]);
+                let (la, lb): (Vec<A>, Vec<A>) = (a.to_vec(), b.to_vec());
+                let w = want_of(&la, &lb);
+                let ctx = || format!("both operands view one buffer {:?}: a = buf[..{}], b = buf[..{};2]", buf, n, 2 * n - 1);
+                h = match measure(&a, &b, maxv.clone()) {
+                    Ok(ms) => judge(&ms, &w, &maxv, &ctx, lx),
+                    Err(e) => {
+                        lx.fail("C09/failed", || format!("[{}] {}; {}", A::NAME, e, ctx()));
+                        0
+                    }
+                };
+            }
+            1 => {
+                // overlapping windows: a = buf[..m-1], b = buf[1..]
+                let a = arr.slice(ndarray::s![..m - 1]);
+                let b = arr.slice(ndarray::s![1..]);
+                let w = want_of(&a.to_vec(), &b.to_vec());
+                let ctx = || format!("overlapping windows of one buffer {:?}: a = buf[..{}], b = buf[1..]", buf, m - 1);
+                h = match measure(&a, &b, maxv.clone()) {
+                    Ok(ms) => judge(&ms, &w, &maxv, &ctx, lx),
+                    Err(e) => {
+                        lx.fail("C09/failed", || format!("[{}] {}; {}", A::NAME, e, ctx()));
+                        0
+                    }
+                };
+            }
+            2 => {
+                // a = buf, b = buf reversed (same cells, opposite direction)
+                let a = arr.view();
+                let b = arr.slice(ndarray::s![..;-1]);
+                let w = want_of(&a.to_vec(), &b.to_vec());
+                let ctx = || format!("one buffer {:?} against its own reversed view", buf);
+                h = match measure(&a, &b, maxv.clone()) {
+                    Ok(ms) => judge(&ms, &w, &maxv, &ctx, lx),
+                    Err(e) => {
+                        lx.fail("C09/failed", || format!("[{}] {}; {}", A::NAME, e, ctx()));
+                        0
+                    }
+                };
+            }
+            _ => {
+                // square matrix against its own transpose
+                let k = (m as f64).sqrt() as usize;
+                let sq = Array2::from_shape_vec((k, k), buf[..k * k].to_vec()).unwrap();
+                let a = sq.view();
+                let b = sq.t();
+                let la: Vec<A> = a.iter().cloned().collect();
+                let lb: Vec<A> = b.iter().cloned().collect();
+                let w = want_of(&la, &lb);
+                let ctx = || format!("a {}x{} matrix {:?} against its own transpose", k, k, la);
+                h = match measure(&a, &b, maxv.clone()) {
+                    Ok(ms) => judge(&ms, &w, &maxv, &ctx, lx),
+                    Err(e) => {
+                        lx.fail("C09/failed", || format!("[{}] {}; {}", A::NAME, e, ctx()));
+                        0
+                    }
+                };
+            }
+        }
+        h
+    });
+}
+
 fn main() {
     let mut rep = Report::new("C09");
     rep.rule = "case = (operand a, operand b over a 4-value alphabet, element type) with a rotating stride pair (1-D); (shape, layout of a, layout of b, fill, ownership pair, type) in n-D; non-trivial = at least 2 elements".into();
@@ -313,6 +397,42 @@ fn main() {
                 1 => run1::<i64>(c, lx),
                 2 => run1::<f64>(c, lx),
                 _ => run1::<BigInt>(c, lx),
+            }
+        },
+    );
+    let amax = rep.cfg.pick(6, 7);
+    let acases = (3..=amax).flat_map(|m| sequences(m, 4)).flat_map(|d| {
+        (0..4u8).flat_map(move |kind| {
+            let d = d.clone();
+            let keep = kind < 3 || d.len() == 4;
+            (0..4u8).filter(move |_| keep).map(move |ty| AliasCase { digits: d.clone(), kind, ty }).collect::<Vec<_>>()
+        })
+    });
+    rep.run_sub(
+        "aliasing-operands",
+        &format!("every buffer of length 3..={} over the 4-value alphabet x 4 element types; both operands are views into that ONE buffer: (same start, same length, stride 1 vs 2), overlapping windows, the buffer against its reversed view, a 2x2 matrix against its own transpose", amax),
+        acases,
+        |c, lx| {
+            lx.nontrivial(true);
+            match c.ty {
+                0 => run_alias::<i32>(c, lx),
+                1 => run_alias::<i64>(c, lx),
+                2 => run_alias::<f64>(c, lx),
+                _ => run_alias::<BigInt>(c, lx),
+            }
+        },
+    );
+    // 3x3 matrices against their transpose (9 cells: every matrix over 3 of the 4 values)
+    let tcases = sequences(9, 3).flat_map(|d| (0..2u8).map(move |ty| AliasCase { digits: d.clone(), kind: 3, ty: ty * 2 }));
+    rep.run_sub(
+        "aliasing-transpose-3x3",
+        "every 3x3 matrix over 3 values (19683) against its own transpose, i32 and f64",
+        tcases,
+        |c, lx| {
+            lx.nontrivial(true);
+            match c.ty {
+                0 => run_alias::<i32>(c, lx),
+                _ => run_alias::<f64>(c, lx),
             }
         },
     );
